@@ -239,8 +239,8 @@ def run_case(spec):
     if kind == 'invalid':
         bad = ([dict(strategy='weird')] + [dict(strategy=None)] +
                [dict(strategy=s, min_rate=r) for s in ('max_tpr', 'max_tnr')
-                for r in (None, -0.1, 1.5, 'a', float('nan'))] +
-               [dict(strategy='f_beta', beta=b) for b in (None, 'a')])
+                for r in (None, -0.1, 1.5, 'a', float('nan'), '0.5', b'1', [0.5], 2 + 0j)] +
+               [dict(strategy='f_beta', beta=b) for b in (None, 'a', '2', b'1', [1.0])])
         calls = [0]
 
         def counting(idx):
